@@ -360,6 +360,84 @@ def rule_flags_mirror(chk, prog):
                                                                    "" if {"seenConnPt", "seenShapeEdge"} <= resets else "seen-flags are not reset before the reverse pass")
 
 
+def rule_endpoint_dirs(chk, prog):
+    """Orthogonal visibility edges respect the permitted directions of connector end points on the scan line."""
+    from ..microai.interp import default_obj, Oracle
+    import itertools
+    r = chk.rule("ENDPOINT-DIRS", "LineSegment::generateVisibilityEdgesFromBreakpointSet interpreted on a visibility line with the breakpoints "
+                 "shape-side, connector end point c1, connector end point c2, shape-side, for all 16 combinations of the end points' "
+                 "permitted directions: an edge between a lower and an upper breakpoint is created exactly when the lower one (if an end "
+                 "point) may be left upwards and the upper one (if an end point) may be reached from below -- for consecutive "
+                 "breakpoints and for the shape-side links of two end points inside one shape; edge lengths are position differences", floor=1)
+    fn = prog.fn("Avoid::LineSegment::generateVisibilityEdgesFromBreakpointSet")
+    UP, DOWN = 1, 2
+    n = 0
+    bad = None
+    for dim in (0, 1):
+        for d1, d2 in itertools.product(range(4), repeat=2):
+            made = []
+
+            def edge_ctor(it, o, args, env):
+                a = [it.ev(x, env) for x in args]
+                o.f["_ends"] = (a[0].f["_name"], a[1].f["_name"])
+                made.append(o)
+
+            def set_dist(it, nd, env):
+                from ..astq import call_object as co, call_args as ca
+                it.ev(co(nd), env).f["_dist"] = it.ev(ca(nd)[0], env)
+                return None
+
+            def vert(name, pos, conn):
+                pt = default_obj(prog, "Avoid::Point", {"x": Fraction(pos if dim == 0 else 0), "y": Fraction(pos if dim == 1 else 0)})
+                v = default_obj(prog, "Avoid::VertInf", {"point": pt})
+                v.f["_name"] = name
+                v.f["_conn"] = conn
+                return v
+            hooks = {"Avoid::LineSegment::setLongRangeVisibilityFlags": lambda it, nd, env: None,
+                     "Avoid::VertID::isConnPt": lambda it, nd, env: it.ev(call_object_(nd), env).f.get("_isconn", False),
+                     "Avoid::EdgeInf::setDist": set_dist}
+            specs = [("E0", 0, False, 0), ("C1", 2, True, d1), ("C2", 5, True, d2), ("E3", 9, False, 0)]
+            bps = []
+            for name, pos, conn, dirs in specs:
+                v = vert(name, pos, conn)
+                v.f["id"] = default_obj(prog, "Avoid::VertID", {"_isconn": conn})
+                bps.append(default_obj(prog, "Avoid::PosVertInf", {"pos": Fraction(pos), "vert": v, "dirs": dirs}))
+            seg = default_obj(prog, "Avoid::LineSegment", {"begin": Fraction(0), "finish": Fraction(9), "pos": Fraction(0),
+                                                           "breakPoints": Vec(bps, "Avoid::PosVertInf")})
+            it = Interp(prog, Oracle([]), hooks=hooks)
+            it.ctor_hooks = {"Avoid::EdgeInf": edge_ctor}
+            try:
+                it.call(fn, seg, None, None, arg_values=[default_obj(prog, "Avoid::Router", {}), dim])
+            except (Unsupported, AssertFail, Thrown) as e:
+                raise AnalysisBroken("generateVisibilityEdgesFromBreakpointSet outside the interpreter subset: %s" % e)
+            n += 1
+            got = sorted(e.f["_ends"] for e in made)
+            posn = {s_[0]: s_[1] for s_ in specs}
+            dirs = {"C1": d1, "C2": d2}
+
+            def allowed(lo, hi):
+                return (lo not in dirs or dirs[lo] & UP) and (hi not in dirs or dirs[hi] & DOWN)
+            want = sorted(p_ for p_ in (("E0", "C1"), ("C1", "C2"), ("C2", "E3"), ("E0", "C2"), ("C1", "E3")) if allowed(*p_))
+            if got != want:
+                bad = bad or "dimension %s, permitted directions c1=%s c2=%s: edges %s, expected %s" % (
+                    "xy"[dim], _dirs(d1), _dirs(d2), got, want)
+            for e in made:
+                lo, hi = e.f["_ends"]
+                if e.f.get("_dist") != Fraction(posn[hi] - posn[lo]):
+                    bad = bad or "edge %s-%s has length %s, expected %d" % (lo, hi, e.f.get("_dist"), posn[hi] - posn[lo])
+    r.count(n)
+    (r.bad if bad else r.ok)("generateVisibilityEdgesFromBreakpointSet", fn.where(), bad or "%d direction combinations" % n)
+
+
+def _dirs(d):
+    return "+".join(x for x, b in (("up", 1), ("down", 2)) if d & b) or "none"
+
+
+def call_object_(nd):
+    from ..astq import call_object
+    return call_object(nd)
+
+
 def rule_inside_strict(chk, prog):
     """Node::isInsideShape decides whether a connector end point gets pass-through vertices in the orthogonal visibility graph."""
     from ..microai.interp import default_obj
@@ -435,3 +513,4 @@ def run(chk):
     rule_turn_prune(chk, prog)
     rule_turn_prune_mirror(chk, prog)
     rule_flags_mirror(chk, prog)
+    rule_endpoint_dirs(chk, prog)
